@@ -320,6 +320,8 @@ def ev_mcall(e, env, ctx):
             return sub_size(ctx, "qbase/src/net.rs", "SocketAddr", "encoding_size", r)
         if r.kind == "struct" and r.sname == "EcnCounts":
             return sub_size(ctx, FR + "ack.rs", "EcnCounts", "encoding_size", r, r"impl EcnCounts \{")
+        if r.kind == "prefimg":
+            return V("nat", f"{r.term}.length")
         if r.kind == "resettoken":
             txt = fn_body(src_of(ctx.g, "qbase/src/token.rs"), r"impl ResetToken \{", r"pub fn encoding_size\(&self\) -> usize \{", "ResetToken::encoding_size")
             sub = Ctx(ctx.g, ctx.spec, src_of(ctx.g, "qbase/src/token.rs"), "qbase/src/token.rs")
@@ -643,6 +645,10 @@ def pval(e, env, ctx):
     return ev(e, env, ctx)
 
 
+def wrapres(ctx, t):
+    return ctx.reswrap(t) if hasattr(ctx, "reswrap") else t
+
+
 def comb(e, env, ctx, fn_text):
     """parser-valued expression -> CPS function"""
     if e[0] == "block" and not e[1] and e[2] is not None:
@@ -656,7 +662,7 @@ def comb(e, env, ctx, fn_text):
 
             def k(inp, cont, lp=lp, kind=kind):
                 x, r = ctx.fresh("v"), ctx.fresh("r")
-                return f"({lp} {inp}).bind fun {x} {r} =>\n    {cont(V(kind, x), r)}"
+                return f"({wrapres(ctx, f'{lp} {inp}')}).bind fun {x} {r} =>\n    {cont(V(kind, x), r)}"
             return k
         if p == "be_ecn_counts":
             src = src_of(ctx.g, FR + "ack.rs")
@@ -684,6 +690,16 @@ def comb(e, env, ctx, fn_text):
             x, r = ctx.fresh("v"), ctx.fresh("r")
             return f"({mode} {par(n)} {inp}).bind fun {x} {r} =>\n    {cont(V('bytes', x), r)}"
         return k
+    if e[0] == "call" and e[1] == ("path", ["length_data"]) and e[2] == [("path", ["be_varint"])]:
+        # nom::multi::length_data(be_varint): the count, then that many bytes (streaming: Incomplete when short)
+        def k(inp, cont):
+            n, r1, x, r2 = ctx.fresh("v"), ctx.fresh("r"), ctx.fresh("v"), ctx.fresh("r")
+            return (f"({wrapres(ctx, f'pVarint {inp}')}).bind fun {n} {r1} =>\n    ({wrapres(ctx, f'pTakeS {n} {r1}')}).bind fun {x} {r2} =>\n    {cont(V('bytes', x), r2)}")
+        return k
+    if e[0] == "call" and e[1] == ("path", ["map"]) and len(e[2]) == 2 and hasattr(ctx, "mapfn"):
+        inner = comb(e[2][0], env, ctx, fn_text)
+        fn = ctx.mapfn(e[2][1])
+        return lambda inp, cont: inner(inp, lambda v, r: cont(fn(v), r))
     if e[0] == "call" and e[1] == ("path", ["map"]) and len(e[2]) == 2:
         inner = comb(e[2][0], env, ctx, fn_text)
         f = e[2][1]
